@@ -360,3 +360,6 @@ func PubKeysHex(n int) ([]string, error) {
 	}
 	return out, nil
 }
+
+// Quiet disables the repository's logging.
+func Quiet() { zerolog.SetGlobalLevel(zerolog.Disabled) }
